@@ -308,19 +308,22 @@ Qed.
 
 (* the section Scte35Events builds for event k is well-formed, hence decodes to its fields *)
 Lemma event_signal_wf s pid k pt :
-  0 < e_timescale s -> 0 <= e_count s < 500 -> 0 <= k < 500 -> 0 <= pid < 65536 ->
+  0 < e_timescale s -> 0 <= e_count s < 510 -> 0 <= k -> (0 < e_count s -> k < e_count s) -> 0 <= pid < 65536 ->
   0 <= e_duration s * 90000 / e_timescale s < 8589934592 ->
   wf_signal (event_signal s pid k pt).
 Proof.
-  intros Hts Hc Hk Hp Hd.
+  intros Hts Hc Hk Hkc Hp Hd.
   pose proof (Z.mod_pos_bound (pt * 90000 / e_timescale s) (2 ^ 33) ltac:(lia)) as Hpts.
   change (2 ^ 33) with 8589934592 in Hpts.
   pose proof (Z.mod_pos_bound k 2 ltac:(lia)) as Hm.
-  assert (Han : 0 <= (if 0 <? e_count s then 1 + k / 2 else 0) < 256) by (destruct (0 <? e_count s); lia).
+  pose proof (Z.mod_pos_bound k (2 ^ 32) ltac:(lia)) as Hid. change (2 ^ 32) with 4294967296 in Hid.
+  assert (Han : 0 <= (if 0 <? e_count s then 1 + k / 2 else 0) < 256).
+  { destruct (0 <? e_count s) eqn:E; [|lia]. assert (k < e_count s) by (apply Hkc; lia). lia. }
   assert (Hae : 0 <= (if 0 <? e_count s then 1 + e_count s / 2 else 0) < 256) by (destruct (0 <? e_count s); lia).
   unfold wf_signal, event_signal.
   cbn [sg_table_id sg_sap sg_protocol sg_enc_alg sg_pts_adj sg_cw sg_tier sg_cmd sg_descs wf_cmd].
-  unfold wf_insert, wf_time, wf_break, scte35_pts, scte35_break.
+  unfold wf_insert, wf_time, wf_break, scte35_pts, scte35_break, emsg_id_field.
+  change (2 ^ 32) with 4294967296.
   cbn [si_id si_pts si_break si_program_id si_avail_num si_avails_expected bd_dur].
   repeat match goal with |- _ /\ _ => split end; try lia.
   - constructor; [|constructor]. unfold wf_desc, wf_segd. cbn [desc_ident].
